@@ -308,7 +308,7 @@ export async function run(ctx) {
       { id: "intersection-members-project-one-property", text: "type T3 = { name?: { items?: string[] } };\ntype T2 = { name: { kind: string } };\ntype X = T3 & T2;", values: [{ name: { kind: "k", items: ["a"] } }, { name: { kind: "k" } }] },
       { id: "sorted-keys-named-like-prototype-members", text: "type X = Record<string, any>;", values: [{ constructor: {}, toString: 1, b: 2 }, { hasOwnProperty: null }] },
       { id: "optional-key-named-like-a-prototype-member", text: "type X = { toString?: string; a: number };", values: [{ a: 1 }, Object.assign(Object.create(null), { a: 1 }), { a: 1, toString: "s" }] },
-      { id: "built-in-leaf-kept-by-one-union-member", text: 'type D = { t?: number };\ntype X = { items: D | any; n: number } | { tag: "c"; items: Uint32Array } | { tag: "d"; items: Date | D };', values: [{ items: new Uint32Array(2), n: 1, tag: "c" }, { items: new Date(0), n: 1, tag: "d" }, { items: new Map([["k", 1]]), n: 2 }] },
+      { id: "built-in-leaf-kept-by-one-union-member", text: 'type D = { t?: number };\ntype X = { items: D | any; n: number } | { tag: "c"; items: Uint32Array } | { tag: "d"; items: Date | D } | { _tag: "c"; items: Uint32Array } | { _tag: "d"; items: Date } | { _tag: "m"; items: Map<string, number> };', values: [{ items: new Uint32Array(2), n: 1, tag: "c" }, { items: new Date(0), n: 1, tag: "d" }, { items: new Map([["k", 1]]), n: 2 }, { items: new Uint32Array(2), n: 1, _tag: "c" }, { items: new Date(0), n: 1, _tag: "d" }, { items: new Map([["k", 1]]), n: 2, _tag: "m" }] },
       { id: "intersection-that-is-a-map", text: "type X = Map<string, { a: number }> & Map<string, { b: string }>;", values: [new Map([["k1", { a: 1, b: "x" }]]), new Map()] },
       { id: "intersection-that-is-a-set", text: "type X = Set<{ a: number }> & Set<{ b?: string }>;", values: [new Set([{ a: 1, b: "x" }]), new Set()] },
       { id: "intersection-that-is-an-array", text: "type X = { a: number }[] & { b?: string }[];", values: [[{ a: 1, b: "x" }, { a: 2 }], []] },
